@@ -56,8 +56,9 @@ func (k Keeper) SendNftTransfer(
 	// a native class must not live in the namespace of voucher paths ("nft/<chain>/<chain>/<class>"):
 	// the receiving chain cannot tell such a name from a genuine path, so it could be made to collide
 	// with (and later be exchanged for) the escrowed voucher of somebody else's NFT
-	if !strings.HasPrefix(class, CLASSPREFIX) && strings.HasPrefix(class, CLASSPATHPREFIX+DELIMITER) {
-		return errorsmod.Wrapf(types.ErrInvalidDenom, "class %s: names starting with %s are reserved for voucher paths", class, CLASSPATHPREFIX+DELIMITER)
+	// (the test is exactly the one the receiving side uses to recognise a path)
+	if !strings.HasPrefix(class, CLASSPREFIX) && strings.HasPrefix(class, CLASSPATHPREFIX) && strings.Contains(class, DELIMITER) {
+		return errorsmod.Wrapf(types.ErrInvalidDenom, "class %s: names starting with %s and containing %s are reserved for voucher paths", class, CLASSPATHPREFIX, DELIMITER)
 	}
 
 	// deconstruct the nft class into the class trace info to determine if the sender is the source chain
